@@ -312,6 +312,40 @@ func TestVerif_C12_Confinement(t *testing.T) {
 				}
 				nontrivial = true
 			},
+			// a token of one namespace whose policy NAME points into another namespace ("../<uuid>/all"): policy names are
+			// client-controlled strings; the token must still be confined to its own namespace
+			"foreign-policy-name": func(rt *rapid.T) {
+				home := w.nss[1+fairIndex(rt, "home", len(w.nss)-1)]
+				if home.sealed {
+					rt.Skip("sealed")
+				}
+				victim := w.nss[fairIndex(rt, "victim", len(w.nss))]
+				if isDescendantOrSelf(victim.path, home.path) || victim.sealed {
+					rt.Skip("victim inside the token's own scope")
+				}
+				uuid := namespace.RootNamespaceUUID
+				if victim.path != "" {
+					uuid = victim.ns.UUID
+				}
+				name := []string{"../" + uuid + "/all", uuid + "/all", "../../" + uuid + "/all", "./../" + uuid + "/all"}[fairIndex(rt, "form", 4)]
+				// warm the victim namespace's policy cache
+				tc.doCtx(w.ctx(victim), &logical.Request{Operation: logical.ReadOperation, Path: "m1/kv/__probe", ClientToken: victim.token})
+				r := tc.doCtx(w.ctx(home), &logical.Request{Operation: logical.UpdateOperation, Path: "auth/token/create", ClientToken: tc.root,
+					Data: map[string]any{"policies": []string{name}, "no_default_policy": true, "ttl": "30m"}})
+				if !r.ok() || r.resp == nil || r.resp.Auth == nil {
+					w.logf("token with policy name %q in %q refused: %v", name, home.path, r)
+					return
+				}
+				tok := r.resp.Auth.ClientToken
+				before := len(w.hub.handlerCalls())
+				res := tc.doCtx(w.ctx(victim), &logical.Request{Operation: logical.ReadOperation, Path: "m1/kv/__probe", ClientToken: tok})
+				served := res.ok() || len(w.hub.handlerCalls()) > before
+				w.logf("token of %q with policy name %q used in %q -> %v served=%v", home.path, name, victim.path, res, served)
+				nontrivial = true
+				if served {
+					fail("foreign-policy-name-grants-other-namespace", fmt.Sprintf("a token created in namespace %q with the policy name %q was served in namespace %q (outside its own namespace and descendants)", home.path, name, victim.path))
+				}
+			},
 			"seal-toggle": func(rt *rapid.T) {
 				var s *c12NS
 				for _, n := range w.nss {
